@@ -71,7 +71,7 @@ def random_tree(rng, maxfiles: int = 6):
 WIDE_DIRS = ["", "a", "b", "c", "a/a", "a/b", "a/c", "b/a", "c/a", "a/b/c", "a/a/a", "b/c/a"]
 WIDE_FILES = ["__init__.py", "__init__.pyi", "a.py", "a.pyi", "b.py", "b.pyi", "c.py", "c.pyi", "x.txt", "a"]
 
-ODD_DIR_NAMES = ["a-stubs", "b-stubs", "a-b", "1a", "a.b", "__init__", "__main__", "__pycache__", "node_modules",
+ODD_DIR_NAMES = ["a-stubs", "b-stubs", "a-b", "1a", "a.b", "__init__", "__pycache__", "node_modules",
                  "site-packages", ".h", "a.py", "b.pyi", "-stubs"]
 ODD_FILE_NAMES = ["a.b.py", "a-b.py", "1a.py", "a-stubs.py", "a-stubs.pyi", ".h.py", "__main__.py", "a.py.py", "a.pyi.py",
                   "a.txt", "a", "py", "a.pyx", "__init__.pyi.py", "__init__.txt", "A.py", "a.PY", "a.pyi.pyi"]
